@@ -54,7 +54,7 @@ BOUNDS = {
     "quick": {"positions": 2, "meta_shapes": 4, "interactions": [1, 2], "history_depth": 4, "unmerged_depth": 2},
     "thorough": {"positions": 2, "meta_shapes": 4, "interactions": [1, 2], "history_depth": 5, "unmerged_depth": 3},
 }
-BUDGET_S = {"quick": 140, "thorough": 2400}
+BUDGET_S = {"quick": 150, "thorough": 2400}
 CHUNK = 1
 ASSUMPTIONS = [
     "contents outside the 20 listed classes and longer than 3 characters are not enumerated; multi-valued headers are not enumerated",
@@ -68,6 +68,10 @@ ASSUMPTIONS = [
     "merged BFS states are assumed to have equal futures (argument in the comment above `canon`); the unmerged enumeration to "
     "`unmerged_depth` does not rely on it",
     "the 1 s join timeout of the writer thread is not modelled: the harness joins without limit before reading",
+    "\"valid YAML\" is alarmed only when libyaml and PyYAML's pure-Python parser both reject the cassette; where they disagree (a lone "
+    "surrogate in a coverage description/location/parameter is written as the escape \\uD800, which libyaml rejects and PyYAML accepts) the "
+    "case is counted (`yaml_parsers_disagree`) and left undecided",
+    "quick tier: the second operation (POST /b) of the history alphabet has the letters {pass, fail F1, error} only; thorough has the full set",
 ]
 TECHNIQUE = (
     "small-scope exhaustive enumeration of report contents through the real handlers with independent re-parsing (E2) + explicit-state "
